@@ -17,6 +17,9 @@ import (
 // HarnessClientIDRoundTrip: for every client type accepted by ValidateClientType and every sequence, the formatted
 // identifier passes the chain's identifier validation and parses back to exactly (type, sequence).
 func HarnessClientIDRoundTrip() {
+	if !verif.Thorough() {
+		return // string-heavy: thorough tier only (the length part is HarnessClientIDLength)
+	}
 	verif.NoPanic()
 	verif.ExactDecimalLengths(true)
 	t := verif.String("clientType")
@@ -39,6 +42,24 @@ func HarnessClientIDRoundTrip() {
 		verif.Assert(gotSeq == n, "parsed sequence equals the original")
 	}
 	verif.Assert(clienttypes.IsValidClientID(id), "IsValidClientID accepts generated identifiers")
+}
+
+// HarnessClientIDLength: for every client type accepted by ValidateClientType (any length, any characters) and every
+// sequence, the formatted identifier respects the identifier length limits of the chain (4..64 characters) — the part
+// of validation that depends on the digit count of the sequence.
+func HarnessClientIDLength() {
+	if !verif.Thorough() {
+		return // the identifier-format regular expressions make even the reachability query slow: thorough tier only
+	}
+	verif.NoPanic()
+	verif.ExactDecimalLengths(true)
+	t := verif.String("clientType")
+	n := verif.Uint64("sequence")
+	verif.Assume(clienttypes.ValidateClientType(t) == nil)
+	id := clienttypes.FormatClientIdentifier(t, n)
+	verif.Reach("formatted")
+	verif.Assert(len(id) >= 4 && len(id) <= host.DefaultMaxCharacterLength, "a generated client identifier respects the identifier length limits")
+	verif.Assert(!strings.Contains(id, "/"), "and contains no path separator")
 }
 
 // HarnessConnChanRoundTrip: connection-N / channel-N identifiers validate and parse back to N for every N.
